@@ -217,6 +217,18 @@ def s5(chk: Check, proj: Project, w) -> None:
         raise AnalysisError(f"render-reachable set collapsed to {len(reach)} functions")
     chk.ob("S5", "render-call-graph:acyclic", m.loc(f), not cyc, f"no cycle among the {len(reach)} render-reachable in-package functions" if not cyc else
            f"render-reachable functions call each other in a cycle {cyc[0][:4]}: Python recursion on the render path, depth-limited")
+    # (c2) no explicit depth limit either
+    lim = []
+    for fk in sorted(reach):
+        fm, ffn = w.cg.funcs[fk]
+        for r in [x for x in body_walk(ffn) if isinstance(x, ast.Raise)]:
+            guarded = any(re.search(r"len\((\w+\.)*\w*(path|depth|nesting|stack)\w*\)\s*(>|>=)", t) for t, pol in cond_atoms(r) if pol)
+            explicit = isinstance(r.exc, ast.Call) and norm(r.exc.func).split(".")[-1] == "RecursionError"
+            if guarded or explicit:
+                lim.append((fm, r))
+    chk.ob("S5", "render-path:no-explicit-depth-limit", lim[0][0].loc(lim[0][1]) if lim else m.loc(f), not lim,
+           "no raise on the render path depends on the length of the component path / a nesting counter" if not lim else
+           f"`{short(lim[0][1], 70)}` refuses to render beyond a fixed nesting depth: the property asks for any depth (the queue exists to have no limit); a chain of 1300 components fails although nothing recursed")
     # (d) chain copy is iterative
     fx = _deepcopy_sites(ast.parse(_FIXTURE_DEEPCOPY))
     if len(fx) != 1:
